@@ -1295,6 +1295,7 @@ func (s *scen) stepDrain(st *Step) {
 		s.emit(J{"k": "drain", "w": st.W, "vals": vals, "end": end, "free": true})
 		return
 	}
+	confirmed := false
 	for len(vals) < max {
 		if !s.quiesce() {
 			end = "unquiet"
@@ -1330,6 +1331,14 @@ func (s *scen) stepDrain(st *Step) {
 			break
 		}
 		if !got {
+			if len(vals) == 0 && !confirmed {
+				// Nothing at all was ready: before the stream is declared drained, look once more a moment later
+				// (quiescence is inferred from goroutine states; a sweep under heavy load once saw an event arrive
+				// right after such an empty drain).
+				confirmed = true
+				time.Sleep(time.Millisecond)
+				continue
+			}
 			break
 		}
 	}
@@ -1342,7 +1351,7 @@ func (s *scen) stepDrain(st *Step) {
 			end = "partial" // the scenario asked for at most Max values
 		}
 	}
-	s.emit(J{"k": "drain", "w": st.W, "vals": vals, "end": end, "free": false})
+	s.emit(J{"k": "drain", "w": st.W, "vals": vals, "end": end, "free": false, "fion": fionread(w.fd), "qlen": len(w.W.Events)})
 }
 
 // anySending reports whether a library goroutine is parked in a channel operation (something is waiting to be received).
